@@ -503,9 +503,10 @@ def gen_case(tape, batch):
         if funcs and tape.bool(0.3, "decoy-member"):
             xe = dict(entry, members=list(entry["members"]))
             src = tape.pick(funcs, "decoy-member-of")
-            how = tape.pick(["longer", "prefixed", "shorter", "variable", "upper"], "decoy-member-kind")
+            how = tape.pick(["longer", "prefixed", "shorter", "variable", "upper", "unnamed-extra", "unnamed-extra"],
+                            "decoy-member-kind")
             nm = {"longer": src["name"] + "All", "prefixed": "my" + src["name"], "shorter": src["name"][:-1],
-                  "variable": src["name"], "upper": src["name"].upper()}[how]
+                  "variable": src["name"], "upper": src["name"].upper(), "unnamed-extra": src["name"]}[how]
             dm = copy.deepcopy(src)
             dm["name"] = nm
             dm["marker"] = marker()
@@ -513,6 +514,15 @@ def gen_case(tape, batch):
             dm["detailed"] = None
             dm["param_docs"] = None
             dm["returns"] = None
+            if how == "unnamed-extra":
+                # a C++ overload the interface does not wrap, with one more parameter that has no name
+                # (`scale(const Point&, double factor)` next to `scale(double factor)`): another arity, never a match
+                # (before the first defaulted parameter: defaults trail in C++)
+                first_default = next((i for i, pp in enumerate(dm["params"]) if pp.get("defval") is not None),
+                                     len(dm["params"]))
+                k = tape.choose(first_default + 1, "unnamed-at")
+                dm["params"] = [dict(p) for p in dm["params"]]
+                dm["params"].insert(k, {"name": "unnamed", "tag": None, "defval": None})
             if how == "variable":
                 dm["kind"] = "variable"
                 dm["params"] = []
@@ -522,7 +532,9 @@ def gen_case(tape, batch):
             # (a same-named data member next to a method cannot exist in C++; it is kept as a decoy only where
             #  the arity already tells it apart, like the enum-value decoy above)
             if nm and ((how == "variable" and 0 not in entry["_arities"].get(src["name"], {0})) or
-                       (how != "variable" and nm not in wrapped_names)):
+                       (how == "unnamed-extra" and
+                        len(dm["params"]) not in entry["_arities"].get(src["name"], set())) or
+                       (how not in ("variable", "unnamed-extra") and nm not in wrapped_names)):
                 xe["members"].insert(tape.choose(len(xe["members"]) + 1, "decoy-member-pos"), dm)
                 pr["decoy_member_with_similar_name"] = 1
         # document order of the wrapped members (Doxygen groups members by section; a k-th binding is matched
